@@ -114,6 +114,19 @@ def tokenIf {α : Type} (ending : Ending) (f : Lexeme → Option α) : P α := f
 def exact (ending : Ending) (name : String) : P Lexeme :=
   tokenIf ending (fun l => if l.tok == .enum name then some l else none)
 
+def scalarTy : Ty → Bool
+  | .int => true | .byte => true | .bool => true | .string => true | _ => false
+
+/-- a type a variable, parameter or element can have: a scalar or an array of scalars -/
+def tyOK : Ty → Bool
+  | .arr el _ => scalarTy el
+  | t => scalarTy t
+
+/-- a type that may be the target of a cast: anything but an array of non-scalars -/
+def tgtOK : Ty → Bool
+  | .arr el _ => scalarTy el
+  | _ => true
+
 def tyOfName : String → Option Ty
   | "DataType.INT" => some .int | "DataType.BOOL" => some .bool | "DataType.BYTE" => some .byte
   | "DataType.STRING" => some .string | "DataType.EMPTY" => some .empty | _ => none
